@@ -22,6 +22,11 @@ Definition path_case (strict once : bool) (fuel : nat) (g : adjl) (s t : nat) : 
     zerr (fun ps => [flat_map zpath ps]) (geodesics_from_vertex strict g s);
     zerr (fun pss => [flat_map zpaths pss]) (all_geodesics_from_vertex strict once fuel g s) ].
 
+(* fuel for the all-geodesics enumeration: the model's stack loop pops one entry per suffix of a shortest path, so |V| * (number of
+   shortest paths to the farthest-reaching destination) always suffices (BfsAllProofs.find_all_geodesics_spec); 5000 on top for the
+   pinned variant's re-queuing search, which is cut off (reported as undefined) beyond that *)
+Definition path_fuel (g : adjl) (s : nat) : nat :=
+  (5000 + length g * S (fold_right Nat.max 0 (map (fun t => length (shortest_paths g s t)) (seq 0 (length g)))))%nat.
 (* what the implementation reported, as far as the spec has to validate it *)
 Record path_impl := { pi_pred : list Z; pi_scans1 : Z; pi_scans2 : Z; pi_path : list Z; pi_from : list Z }.
 Definition nat_of_z (z : Z) : option nat := if Z.eqb z vmax then None else Some (Z.to_nat z).
